@@ -35,7 +35,7 @@ theorem step_delta_components (f t : BitVec 2) (cnt ic : BitVec 16) :
     (rotenc_decode (f.setWidth 8) cnt ic (t.setWidth 8)).2.1 = (if t = 0 then (ic + deltaBV f t) >>> 2 else cnt) ∧
     (rotenc_decode (f.setWidth 8) cnt ic (t.setWidth 8)).2.2 = ic + deltaBV f t := by
   simp only [rotenc_decode, deltaBV]
-  bv_decide
+  bv_decide (config := { timeout := 300 })
 
 theorem step_delta (f t : BitVec 2) (cnt ic : BitVec 16) :
     rotenc_decode (f.setWidth 8) cnt ic (t.setWidth 8)
